@@ -102,7 +102,8 @@ def lattice(name):
             for f in (1e9, 70_000, 1000, 10):
                 L.append((dict(suspect_threshold=s, fail_threshold=f), (-s, -f)))
     elif name == "location_test":
-        boxes = [None, (-20, -20, 20, 20), (-10, -5, 10, 5), (0, -5, 10, 5), (0, 0, 0, 0)]
+        boxes = [None, (-20, -20, 20, 20), (-10, -5, 10, 5), (0, -5, 10, 5), (0, 0, 0, 0),
+                 (-20, -20, 190, 60), (-200, -95, 185, 95)]   # (boxes reaching beyond the globe's own limits)
         for b in boxes:
             for r in (None, 1e7, 200_000, 100, 0):
                 kw = {}
@@ -110,7 +111,7 @@ def lattice(name):
                     kw["bbox"] = list(b)
                 if r is not None:
                     kw["range_max"] = r
-                bb = b or (-180, -90, 180, 90)
+                bb = b or (-360, -180, 360, 180)   # no box: looser than any box given
                 L.append((kw, (bb[0], bb[1], -bb[2], -bb[3], NEG if r is None else -r)))
     elif name == "flat_line_test":
         for s in (300, 180, 120, 90, 60, 30):
@@ -169,7 +170,7 @@ def spaces(name, tier):
             for gaps in ((1, 2, 60, 1), (60, 1, 1, 2)):
                 yield dict(x=list(x), secs=alpha.times_from_gaps(gaps[: max(len(x) - 1, 0)]) if x else [])
     elif name in ("speed_test", "location_test"):
-        pos = ((0.0, 0.0), (1.0, 0.0), (0.0, 6.0), (11.0, 0.0), (NAN, 0.0), (NAN, NAN))
+        pos = ((0.0, 0.0), (1.0, 0.0), (0.0, 6.0), (11.0, 0.0), (NAN, 0.0), (NAN, NAN), (-5.0, -3.0))
         for tr in alpha.all_seqs(pos, 0, 3 + d):
             yield dict(lon=[p[0] for p in tr], lat=[p[1] for p in tr], secs=alpha.regular_secs(len(tr), 3600))
             if name == "speed_test" and len(tr) >= 2:  # a repeated timestamp
